@@ -290,14 +290,14 @@ func (r *Report) finish(verifDir string, seed int, start time.Time, st runStats,
 		"distinct_nontrivial": nNonTrivial,
 		"rule": "one evaluation = one (rule, construct) obligation decided on the resolved program of /repo's working tree; " +
 			"distinct = distinct (rule id, position-free construct key); non-trivial = the verdict required a path, dataflow, call-graph or table argument (bare existence checks of anchors are excluded)",
-		"samples":             samples,
-		"checker_cmd":         fmt.Sprintf("./bin/wtcheck -property %s -tier %s", r.Property, r.Tier),
-		"trusted_base":        []string{"go/types, go/ssa, callgraph/vta of golang.org/x/tools v0.29.0", "the rule code of /verif/checker", "documented behaviour of the Go standard library and bits-and-blooms/bitset (treated as leaves)"},
-		"packages_analysed":   st.Packages,
-		"functions_analysed":  st.Functions,
-		"callgraph_nodes":     st.CGNodes,
-		"configurations":      st.Configs,
-		"exhaustive":          false,
+		"samples":            samples,
+		"checker_cmd":        fmt.Sprintf("./bin/wtcheck -property %s -tier %s", r.Property, r.Tier),
+		"trusted_base":       []string{"go/types, go/ssa, callgraph/vta of golang.org/x/tools v0.29.0", "the rule code of /verif/checker", "documented behaviour of the Go standard library and bits-and-blooms/bitset (treated as leaves)"},
+		"packages_analysed":  st.Packages,
+		"functions_analysed": st.Functions,
+		"callgraph_nodes":    st.CGNodes,
+		"configurations":     st.Configs,
+		"exhaustive":         false,
 	}
 	if st.Corpus != nil {
 		cov["seeded_variant_corpus"] = st.Corpus
